@@ -113,7 +113,8 @@ CLAIMS = {
              "expression and the cached compilation, and for whitespace / redundant-parenthesis variants of the text. Cases the "
              "documentation leaves undefined are not judged. Store.tla enumerates programs (statement [; statement] [; read]) over a "
              "fixed store - member / index reads, '=' and '?=' on declared, undeclared and read-only variables, members and elements - "
-             "with the set of allowed (result, store) outcomes; the engine's result and store dump must be one of them.",
+             "with the set of allowed (result, store) outcomes; the engine's result and store dump must be one of them. "
+             "Every text is also evaluated as a source without identity after a different such text on the same datamodel (path d).",
         note="Trusted: Expr.tla as the reading of the documented semantics; the harness' value encoding; Doubles compared within 1e-12."),
     "C11": dict(
         category="model_checking", design_ref="4/C11",
@@ -122,7 +123,8 @@ CLAIMS = {
              "alphabet (L=3 / 4), structured long inputs (18 families, n up to 10^4 / 10^5) and seeded mutations are evaluated on a "
              "populated store through parser, datamodel (compile + cache) and condition evaluation in a 2 MB-stack thread of a "
              "sacrificial process under a watchdog, followed by a probe evaluation on the same store; TraceC11.tla accepts only "
-             "value/error outcomes with a usable store (rejects panic, hang, process death, locked/poisoned store).",
+             "value/error outcomes with a usable store (rejects panic, hang, process death, locked/poisoned store). A missed short time limit "
+             "is examined again on its own (40 s) before it counts as a hang.",
         note="Bounded enumeration; arbitrary byte strings outside the generated families are not covered."),
     "C12": dict(
         category="fault_enumeration", design_ref="4/C12",
@@ -136,7 +138,7 @@ CLAIMS = {
              "two-session scenario sends to a session that has finished (unreachable: error.communication). "
              "TraceC12.tla accepts a run only if the session thread did not panic, every probe was answered, the error event "
              "the Recommendation assigns (Outcome table) appeared on the internal queue, all events were processed and the final "
-             "cancel ended the session.",
+             "cancel ended the session. The content cases include <foreach> loops that read, re-iterate, assign or shadow the iterated collection.",
         note="A stall is judged by a 20 s deadline after all events were queued; documents the reader rejects are outside the property."),
     "C13": dict(
         category="model_checking", design_ref="4/C13",
@@ -146,7 +148,8 @@ CLAIMS = {
              "property AllConsumed. Real runs with 2-16 host producer threads (with jitter; through the channel handle and through FsmExecutor::send_to_session), a timer producer (delayed sends), an invoked child whose invoking state is left and re-entered (same invoke id) and "
              "a second session sending by session id are recorded: every producer logs its own send order, the session marks the "
              "first and the last content of each macrostep; TraceC13.tla accepts a run only if the consumed sequence is a merge "
-             "of the producers' sequences (each event exactly once, per-sender order) and has the shape (dequeue, begin, end)*.",
+             "of the producers' sequences (each event exactly once, per-sender order) and has the shape (dequeue, begin, end)*; every macrostep "
+             "of the consumer queues an internal event that matches nothing before the one that ends it.",
         note="The real scheduler is steered, not enumerated; exhaustiveness is at the model level. HTTP producers are covered by C20."),
     "C14": dict(
         category="model_checking", design_ref="4/C14",
@@ -179,7 +182,7 @@ CLAIMS = {
              "TraceC15.tla computes the addressed queue (Dest) and accepts a scenario only if each send was received exactly "
              "once, only in that queue, with name, sendid and data unchanged, origintype of the SCXML processor, and the reply "
              "arrived back at the sender; session ids and generated (idlocation) ids of 16 concurrently started sessions must "
-             "be unique.",
+             "be unique. Payload shapes: none, params, namelist, namelist together with params, content text, content expression.",
         note="The executed sends are known from the generated documents; receptions are what content saw in _event."),
     "C16": dict(
         category="model_checking", design_ref="4/C16",
@@ -217,7 +220,7 @@ CLAIMS = {
              "FsmReader::read is run on EVERY prefix length under catch_unwind, and the writer is run with EVERY write call made "
              "short (the sink accepts 1 byte) or failing in turn; TraceC18.tla accepts an experiment only if a cut image gives "
              "Err (never Ok, never a panic), a short write leaves the emitted image unchanged and a failed write is visible in "
-             "has_error().",
+             "has_error(). Directed single-block documents make the image end in each kind of field (long, short, multi-byte and 12-bit-length strings, numbers).",
         note="Faults are injected through the Read/Write objects handed to DefaultProtocolReader/Writer; bit corruption (as opposed to truncation) is out of scope of the property."),
     "C19": dict(
         category="model_checking", design_ref="4/C19",
